@@ -32,7 +32,9 @@ META = {
              "without an observe('<name>.items') handler, raw notifier before/after the other "
              "notifiers; and, for the bare flavours, sets nobody listens to (built without "
              "notifiers, or copies left without one), judged on contents, return value, "
-             "exception class and failure atomicity only. Exhaustive over all start sets of size 0..3 x all single operations of "
+             "exception class and failure atomicity only; after a copy both objects stay alive "
+             "and either one is changed: the other must receive no notification and keep its "
+             "contents (also for the plain set returned by s.copy()). Exhaustive over all start sets of size 0..3 x all single operations of "
              "that grid, plus random 20-op histories with a copy (copy.copy, copy.deepcopy, "
              "pickle protocol 0..5) taken at a random point, checked against the copy law and "
              "then driven by the rest of the history. distinct_nontrivial counts distinct "
@@ -43,20 +45,24 @@ META = {
     "gates": {
         "quick": {"evaluations": 150000, "events_checked": 60000, "failures_checked": 28000,
                   "silent_noops_checked": 60000, "history_ops": 90000, "copies_checked": 4000,
-                  "ops_on_copies": 22000, "exhaustive_cases": 45000,
+                  "ops_on_copies": 20000, "exhaustive_cases": 45000,
                   "observer_events_checked": 24000, "copy_probes": 8500,
+                  "isolation_checks": 29000, "isolation_checks_copy_mutated": 20000,
+                  "isolation_checks_original_mutated": 8500,
                   # sets nobody listens to (never had a notifier, or a fresh copy)
                   "unwatched_evaluations": 100000, "unwatched_failures_checked": 15000,
                   "unwatched_bulk_rejections_checked": 4000, "copies_continued_unwatched": 1500,
                   "exhaustive_unwatched_cases": 75000},
         "thorough": {"evaluations": 2500000, "events_checked": 900000, "failures_checked": 550000,
                      "silent_noops_checked": 1100000, "history_ops": 2200000,
-                     "copies_checked": 90000, "ops_on_copies": 550000,
+                     "copies_checked": 90000, "ops_on_copies": 500000,
                      "exhaustive_cases": 45000, "observer_events_checked": 250000,
                      "copy_probes": 190000,
-                     "unwatched_evaluations": 800000, "unwatched_failures_checked": 200000,
-                     "unwatched_bulk_rejections_checked": 50000,
-                     "copies_continued_unwatched": 40000, "exhaustive_unwatched_cases": 75000},
+                     "unwatched_evaluations": 750000, "unwatched_failures_checked": 190000,
+                     "unwatched_bulk_rejections_checked": 45000,
+                     "copies_continued_unwatched": 37000, "exhaustive_unwatched_cases": 75000,
+                     "isolation_checks": 700000, "isolation_checks_copy_mutated": 500000,
+                     "isolation_checks_original_mutated": 210000},
     },
     "exhaustive_parts": "all single operations of the grid in `rule` on every start set of size "
                         "0..3 over the validated item universe of each flavour",
@@ -578,6 +584,27 @@ def check_copy(ctx, env, model, mode, proto, watch=True):
     return None, cenv
 
 
+def untouched(env, model):
+    """None when env's set was left alone since its logs were cleared: nothing was
+    delivered to its recorder / observer and it still holds `model`."""
+    if env.raw or env.obs_log:
+        return "notified"
+    if env.silent and env.flavour != "tso" and env.ts.notifiers:
+        return "given-a-notifier"            # nobody listens: this is all one can see
+    if set(env.ts) != model:
+        return "changed"
+    return None
+
+
+def isolation_violation(ctx, mode, who, what, by, env, model, detail):
+    ctx.violation("copy/%s/%s-%s-by-change-to-%s" % (mode, who, what, by),
+                  "a change to the %s %s the %s (%s of a %s set): %r; recorder of the untouched "
+                  "set got %r observer=%r, it holds %r, expected %r"
+                  % (by, {"given-a-notifier": "put a notifier on"}.get(what, what), who, mode,
+                     env.flavour, detail, env.raw[:3], env.obs_log[:3], set(env.ts), model),
+                  {"flavour": env.flavour, "mode": mode, "detail": detail})
+
+
 # -- generators -----------------------------------------------------------------
 def validated_universe(flavour):
     out = []
@@ -789,22 +816,35 @@ def run(ctx):
                           ctor_notifier=ctor_notifier)
             model = set(state)
             r = rng.random()
-            mode, proto = (None, None) if r < 0.2 else modes[0] if r < 0.35 else \
-                modes[1] if r < 0.55 else rng.choice(modes[2:])
+            mode, proto = (None, None) if r < 0.2 else ("method", None) if r < 0.25 else \
+                modes[0] if r < 0.4 else modes[1] if r < 0.55 else rng.choice(modes[2:])
             copy_at = rng.randint(0, 20)
             ops = []
             ctx.count("histories_hostile" if hostile else "histories_plain")
-            orig_env, orig_model, copied = None, None, False
+            twin = None                  # (Env, model) of the copy, kept next to the original
             for step in range(20):
-                if mode and step == copy_at:
+                if mode == "method" and step == copy_at:
+                    # s.copy() is a plain set: changing it must not reach the original
+                    ops.append(("<copy>", mode, proto))
+                    c = env.ts.copy()
+                    env.clear_logs()
+                    c.add(9)
+                    c.discard(next(iter(model), 9))
+                    c.clear()
+                    ctx.ev()
+                    ctx.count("isolation_checks")
+                    ctx.count("isolation_checks_copy_mutated")
+                    what = untouched(env, model)
+                    if what:
+                        isolation_violation(ctx, mode, "original", what, "copy", env, model, "add/discard/clear")
+                        break
+                elif mode and step == copy_at:
                     ops.append(("<copy>", mode, proto))
                     complaint, cenv = check_copy(ctx, env, model, mode, proto, watch=watch_copy)
                     if complaint:
                         break
                     if cenv is not None:
-                        orig_env, orig_model = env, set(model)
-                        env, model, copied = cenv, cenv.model, True
-                        orig_env.clear_logs()
+                        twin = (cenv, cenv.model)
                 if flavour in ("reject", "coerce") and rng.random() < 0.08:
                     x = rng.choice(UNIVERSE[flavour])
                     if x in BANNED:
@@ -814,21 +854,31 @@ def run(ctx):
                     ops.append(("<toggle-ban>", x))
                     ctx.count("ban_toggles")
                 op = random_op(rng, flavour, hostile)
-                ops.append(op)
                 ctx.count("history_ops")
-                if copied:
+                if twin is None:
+                    ops.append(op)
+                    if check_one(ctx, env, model, op):
+                        break
+                    continue
+                # both objects stay alive; most operations go to the copy, and the
+                # one that is not operated on must neither change nor be notified
+                on_copy = rng.random() < 0.7
+                (tenv, tmodel), (oenv, omodel) = (twin, (env, model)) if on_copy \
+                    else ((env, model), twin)
+                ops.append(("copy" if on_copy else "original",) + op)
+                oenv.clear_logs()
+                if on_copy:
                     ctx.count("ops_on_copies")
-                if check_one(ctx, env, model, op, copied=copied):
+                if check_one(ctx, tenv, tmodel, op, copied=on_copy):
                     break
-            else:
-                if orig_env is not None:
-                    ctx.ev()
-                    if set(orig_env.ts) != orig_model or (orig_env.raw and not orig_env.silent):
-                        ctx.violation("copy/%s/original-disturbed-by-history-on-copy" % mode,
-                                      "operations on the copy changed or notified the original: "
-                                      "original=%r expected=%r events=%r"
-                                      % (set(orig_env.ts), orig_model, orig_env.raw[:3]),
-                                      {"flavour": flavour, "mode": mode, "history": ops})
+                ctx.ev()
+                ctx.count("isolation_checks")
+                ctx.count("isolation_checks_%s_mutated" % ("copy" if on_copy else "original"))
+                what = untouched(oenv, omodel)
+                if what:
+                    isolation_violation(ctx, mode, "original" if on_copy else "copy", what,
+                                        "copy" if on_copy else "original", oenv, omodel, op)
+                    break
             if h < 3 * ctx.nshards:
                 ctx.sample({"flavour": flavour, "start": state, "observers": env.n_obs,
                             "copy": [mode, proto, copy_at], "history": ops[:7]})
